@@ -73,7 +73,7 @@ Definition wf_level_col (h ha : hier) (lvl : name) : Z :=
   | None => 0
   end.
 
-From V Require Import Model.InsHier Model.InsHierRun Model.UniHierRun Model.HelperCol.
+From V Require Import Model.InsHier Model.InsHierRun Model.UniHierRun Model.HelperCol Model.InsCol.
 
 Definition wf_col_lh (rows : list (list Z)) : Z :=
   let '(br, ar, op, st, dm) := split_lh rows in
@@ -90,7 +90,7 @@ Definition wf_col_ib (rows : list (list Z)) : Z :=
   end.
 
 Definition run_looph4 (rows : list (list Z)) : list Z := run_looph3h rows ++ [wf_col_lh rows].
-Definition run_ibh3 (rows : list (list Z)) : list Z := run_ibh2 rows ++ [wf_col_ib rows].
+Definition run_ibh3 (rows : list (list Z)) : list Z := run_ibh2c rows ++ [wf_col_ib rows].
 
 From V Require Import Model.LevelCons.
 
